@@ -497,6 +497,33 @@ def _first_diff(a, b):
     return a[max(0, i - 30):i + 30], b[max(0, i - 30):i + 30]
 
 
+PROG_EXEMPT = {
+    # routine: reason (confirmed by reading; the reference tree has the pattern)
+    'asm_ZucCipher_4_sse': 'LFSR window wraps around: the sixth load of the rotating state restarts at the low offset',
+    'asm_ZucCipher_4_gfni_sse': 'same code assembled with GFNI',
+    'submit_job_snow3g_uea2_avx512': 'masked stores to two interleaved row progressions (LFSR rows and FSM rows) followed by a third field',
+    'submit_job_snow3g_uea2_vaes_avx512': 'same code assembled with VAES',
+}
+
+
+def rule_progressions(chk, rid, floor=10000):
+    """unrolled per-lane / per-row sequences: the displacements of one instruction form within one routine run in arithmetic progression;
+    a member that breaks a progression its two neighbours on either side agree on names the wrong lane or row"""
+    from .. import insnscan
+    r = chk.rule(rid, 'in five consecutive occurrences of one instruction form within a routine whose outer four displacements step evenly, the '
+                      'middle one lies on the step too (an unrolled per-lane sequence does not name one lane twice and skip another)', floor=floor)
+    for rel, v in sorted(insnscan.progressions().items()):
+        for f in v['findings']:
+            if f['fn'] in PROG_EXEMPT:
+                continue
+            r.bad('%s:%s+%#x' % (rel, f['fn'], f['a']), rel,
+                  '%s (%s): `%s` at +%#x uses displacement %#x where the occurrences of this form before and after it step by %d and put %#x '
+                  'here' % (f['fn'], rel, ' '.join(f['txt'].split()), f['a'], f['got'], f['step'], f['want']))
+        for i in range(v['windows'] - len(v['findings'])):
+            r.ok('%s#%d' % (rel, i))
+    return r
+
+
 UNREACH_BASELINE = _os.path.join(_os.path.dirname(DU_BASELINE), 'unreach_baseline.json')
 
 
